@@ -148,7 +148,7 @@ func c17(args []string) error {
 				msg = e.Error()
 			}
 			meta["msg"] = msg
-			w.add(head+" true [] [] [] [] [] [] []", meta)
+			w.add(head+" true [] [] [] [] [] [] [] [] []", meta)
 			stats["error"]++
 			continue
 		}
@@ -291,8 +291,13 @@ func c17(args []string) error {
 				pairs = append(pairs, fmt.Sprintf("(%d%%nat, %d%%nat, %s, %s)", j, k, coqList(pt), coqList(cells)))
 			}
 		}
-		w.add(fmt.Sprintf("%s false %s %s %s %s %s %s %s", head, denseTerm(dist, nrows), coqList(piT),
-			natList(rp), denseTerm(distR, nrows), natList(cp), denseTerm(distC, nrows), coqList(pairs)), meta)
+		Ph := pmat(0.5)
+		prow, pcol := make([]string, 20), make([]string, 20)
+		for k := 0; k < 20; k++ {
+			prow[k], pcol[k] = flTerm(Ph[0][k]), flTerm(Ph[k][0])
+		}
+		w.add(fmt.Sprintf("%s false %s %s %s %s %s %s %s %s %s", head, denseTerm(dist, nrows), coqList(piT),
+			natList(rp), denseTerm(distR, nrows), natList(cp), denseTerm(distC, nrows), coqList(pairs), coqList(prow), coqList(pcol)), meta)
 		stats[fmt.Sprintf("class-%d", class)]++
 		if cs.rmgaps {
 			stats["rmgaps"]++
